@@ -11,6 +11,10 @@ pub fn read_config_file(
     let mut argument_list : Vec<String> = vec![];
     let lines = cursor.lines().into_iter();
     for boxed_line in lines {
+        if boxed_line.is_err() {
+            let message = format!("unable to read config file: {}", boxed_line.err().unwrap());
+            return Err(message);
+        }
         let line = boxed_line.unwrap();
         let without_comment = strip_comment(line);
         let without_whitespaces = strip_whitespaces(without_comment.to_string());
